@@ -311,21 +311,32 @@ def main(argv=None):
     # (a load-induced flip concerns one or two obligations; a contract with many timeouts is a changed function that the
     # solver cannot decide, and re-running it would only take long)
     retry = [c_ for c_ in retry if sum(1 for cn, _ in unknown if cn == c_) <= 4][:2]
-    if retry and not os.environ.get('PYVC_NO_RETRY'):
+    # two stages: 4x the solver budget, and - for what is then still only a matter of time, at most two obligations - 16x (a
+    # machine whose 16 cores are busy with other checks slowed one quantified obligation of InterestNameField.parse_from down
+    # beyond 4x once; a verdict must not depend on that)
+    for stage, (mult, budget_s, wall_s) in enumerate(((4, 500, 600), (16, 1500, 1800))):
+        if not retry or os.environ.get('PYVC_NO_RETRY'):
+            break
+        if stage == 1:
+            retry = sorted({cname for cname, o in unknown if any(w in (o.get('detail') or '') for w in ('canceled', 'timeout'))})
+            if not retry or len(unknown) > 2:
+                break
         still = []
         rer = {}
+        os.environ['PYVC_Z3_SEED'] = str(stage + 1)            # inherited by the forked worker (see run.Run)
         for cname in retry:
             c0 = next((c for c in contracts if c.name == cname), None)
             sh = c0.shards if c0 is not None else 1
             got = []
             for k in range(sh):
-                o2 = dict(opts, timeout_ms=opts['timeout_ms'] * 4, budget_s=500)
+                o2 = dict(opts, timeout_ms=opts['timeout_ms'] * mult, budget_s=budget_s)
                 if sh > 1:
                     o2['shard'] = (k, sh)
-                rr = with_timeout(tasks.run_contract_task, ((cname, o2),), 600)
+                rr = with_timeout(tasks.run_contract_task, ((cname, o2),), wall_s)
                 if rr:
                     got.extend(rr['obligations'])
             rer[cname] = got
+        os.environ.pop('PYVC_Z3_SEED', None)
         for cname, o in unknown:
             again = [x for x in rer.get(cname, []) if x['name'] == o['name']]      # on every path that generates it
             if cname in rer and again and all(x['status'] == 'discharged' for x in again):
@@ -336,7 +347,7 @@ def main(argv=None):
                         for oo in r['obligations']:
                             if oo is o:
                                 oo['status'] = 'discharged'
-                                oo['detail'] = 'discharged on the re-run with 4x solver budget (first attempt: ' + (o.get('detail') or '').strip() + ')'
+                                oo['detail'] = f'discharged on the re-run with {mult}x solver budget (first attempt: ' + (o.get('detail') or '').strip() + ')'
             elif cname in rer and any(x['status'] == 'failed' for x in again):
                 failed.append((cname, next(x for x in again if x['status'] == 'failed')))
             else:
